@@ -391,7 +391,7 @@ def value_expr(rng, env, prop, depth):
         return rng.choice([["num", rng.choice(["1.3e9", "2.998e9", "1e9", "1300000000"])], ["mul", gen_nonzero(rng, env), ["num", "1e8"]]])
     if prop == "order":
         return ["num", rng.choice(["1", "1.0"])]
-    if rng.random() < 0.12:
+    if rng.random() < 0.05:
         return ["num", rng.choice(["0", "0.0", "0e0"])]       # an exact zero that is GIVEN is not the same as an absent property
     return gen_expr(rng, env, depth)
 
@@ -552,6 +552,34 @@ def gen_program(rng, flavour, size=8, depth=3, nest=5):
             idx = max(i for i, s in enumerate(prog) if s == ["use", root])
             prog.insert(rng.randrange(0, idx + 1), ["use", other])  # an earlier `use` is overridden
     return {"flavour": flavour, "root": root, "prog": prog}
+
+
+def gen_zero_probes(rng, flavour, max_per_type=8):
+    """Small programs, one per (element type, optional numeric property): that property is GIVEN as an exact zero and every other
+    understood numeric property has a non-zero value.  A zero that is given is not an absent property (`if parsed.get(p)` is not
+    `if p in parsed`; a default that is not 0 -- fintx, x_max, order -- must not replace a given 0)."""
+    table = tables(flavour)
+    env = {"vars": [], "attrs": []}
+
+    def nonzero(q):
+        if q in ("volt", "voltage"):
+            return ["mul", gen_nonzero(rng, env), ["num", "1e6"]]
+        if q in ("freq", "frequency", "rf_frequency"):
+            return ["num", rng.choice(["1.3e9", "2.998e9"])]
+        if q == "order":
+            return ["num", "1"]
+        return gen_nonzero(rng, env)
+    out = []
+    for ty in table:
+        req, opt, ign, sig = table[ty]
+        props = list(opt)
+        rng.shuffle(props)
+        for p in props[:(4 if ty == "ematrix" else max_per_type)]:
+            ps = [[q, nonzero(q)] for q in req] + [[q, ["num", rng.choice(["0", "0.0"])] if q == p else nonzero(q)] for q in opt]
+            rng.shuffle(ps)
+            prog = [["def", "z1", ty, ps], ["line", "zl", ["z1"]]] + ([["use", "zl"]] if flavour == "bmad" else [])
+            out.append({"flavour": flavour, "root": "zl", "prog": prog, "zero": [ty, p]})
+    return out
 
 
 def gen_malformed(rng, flavour):
